@@ -10,7 +10,6 @@ VARIABLE l
 Ev == Log[l]
 TInit == l = 1
 Report(failed) == IF failed = {} THEN TRUE ELSE PrintT(ToJson([line |-> l, failed |-> failed]))
-Judge(e, failed) == l <= NLog /\ Ev.e = e /\ Report(failed) /\ l' = l + 1
 TSample == l <= NLog /\ Ev.e = "Sample" /\ Report(SampleFailed(Ev)) /\ l' = l + 1
 TSurface == l <= NLog /\ Ev.e = "Surface" /\ Report(SurfaceFailed(Ev)) /\ l' = l + 1
 TMeasure == l <= NLog /\ Ev.e = "Measure" /\ Report(MeasureFailed(Ev)) /\ l' = l + 1
